@@ -92,6 +92,13 @@ func (ut *UserTracker) setGroupForApp(applicationID string, groupTrack *GroupTra
 	ut.appGroupTrackers[applicationID] = groupTrack
 }
 
+// removeGroupForApp removes the link between the application and its group tracker.
+func (ut *UserTracker) removeGroupForApp(applicationID string) {
+	ut.Lock()
+	defer ut.Unlock()
+	delete(ut.appGroupTrackers, applicationID)
+}
+
 func (ut *UserTracker) getGroupForApp(applicationID string) string {
 	ut.RLock()
 	defer ut.RUnlock()
